@@ -35,6 +35,8 @@ CHECKS = {
             "finalize-time errors carry no line by design: only their path is checked"),
     "C09": ("unique-id constants make every resolution observable; R-resolve reference on generated dependency graphs, read_namespace vs read_files in random target orders, 10 injected error shapes",
             "R-resolve restates the resolution rule of the property"),
+    "C10": ("R-order reference + determinism under injected perturbation: sub-processes with different PYTHONHASHSEED, seeded shuffling wrapper on Path.rglob, equivalent argument spellings/orders/duplicates/symlinks; signatures compared byte for byte",
+            "only accept/reject and successful results are compared (which of several errors is reported may depend on order)"),
 }
 
 NOT_YET = {
